@@ -143,8 +143,8 @@ package ipfslog
 //@     loopmodifies om(l.Next).keys, mapof(om(l.Next).values)
 
 // ---- read accessors (C13: every guarded access happens under l.lock; C05: accessors hand out copies) ----
-//@ define noLocksHeld() = forall o ref :: held[o] == 0
-//@ define onlyLogLockHeld(l *IPFSLog) = held[l.lock] != 0 && (forall o ref :: o != l.lock ==> held[o] == 0)
+//@ define noLocksHeld() = forall o ref :: allocated(o) ==> held[o] == 0
+//@ define onlyLogLockHeld(l *IPFSLog) = held[l.lock] != 0 && (forall o ref :: allocated(o) && o != l.lock ==> held[o] == 0)
 
 //@ func (*IPFSLog).Len
 //@   requires logInv(l)
